@@ -869,6 +869,10 @@ def runtime_error_has_error(rec, F):
     rec.floor(R, "constructions of ExecutionResult::RuntimeError", n, 2)
 
 
+def users_sites(F, fn):
+    return list(F.callers.get(fn.path, []))
+
+
 def cache_key_injective(rec, F):
     R = rec.rule("F4.once-key", "the module cache is keyed by the text full_import_path builds: distinct import paths must give distinct keys, so the key is made of every path segment including the package (no skip / split_first / [1..] on the segments) joined by a separator that cannot occur in a segment")
     fp = F.find1(r"<impl laythe_vm::vm::Vm>::full_import_path$")
@@ -886,6 +890,35 @@ def cache_key_injective(rec, F):
         rec.anchor_lost("F4.once-key", "module_cache keyed by full_import_path")
         return
     bodies = [fp] + list(F.closures_of(fp))
+    # the key is made from what the callers hand in: the functions that produce that argument (extract_import_path)
+    # are part of the construction - an element taken off there (`segments.next()` for the package) is missing from the key
+    producers = []
+    for c, bi in users_sites(F, fp):
+        t = c.blocks[bi]["t"]
+        if len(t["args"]) < 2:
+            continue
+        cur = t["args"][1]
+        for _ in range(6):
+            r = c.root_of(cur)
+            if r[0] == "call":
+                g = F.fn(r[1]["f"])
+                if g is not None and g.crate == "laythe_vm" and g.kind != "Closure" and g.path != fp.path and g not in producers:
+                    producers.append(g)
+                    break
+                if not r[1]["args"]:
+                    break
+                cur = r[1]["args"][0]
+                continue
+            if r[0] == "place":
+                # a component of a tuple returned by the producer
+                cur = {"copy": {"l": r[1]["l"], "p": []}}
+                r2 = c.root_of(cur)
+                if r2 == r or r2[0] not in ("call",):
+                    break
+                continue
+            break
+    for g in producers:
+        bodies += [g] + list(F.closures_of(g))
     drops = []
     sep = False
     for b in bodies:
@@ -893,6 +926,8 @@ def cache_key_injective(rec, F):
             n = lastseg(t["f"])
             if n in ("skip", "split_first", "split_last", "skip_while", "take", "step_by", "last", "nth", "rev"):
                 drops.append((n, t["sp"]))
+            if n == "next" and b.kind != "Closure" and b is not fp and "Iterator" in (t.get("decl") or ""):
+                drops.append(("next()", t["sp"]))   # an element pulled off the segments before they are collected
             if n == "push" and len(t["args"]) > 1 and t["args"][1].get("const"):
                 sep = True
             if n == "join" and len(t["args"]) > 1:
